@@ -157,6 +157,53 @@ fn bfs(acc: &mut Acc, order: (u32, u64), ch: u8, size: usize, max_depth_chars: u
     }
 }
 
+/// The positional rule of the property, on whole outputs: the indented output is the plain output with
+/// `\n` + indent characters inserted only immediately in front of markup that does not follow text or
+/// CDATA. Tokens come from the reference lexer run on the plain output.
+pub fn positional_rule(plain: &[u8], ind: &[u8], ch: u8) -> Result<(), String> {
+    use crate::models::lex::{lex, Kind};
+    let lx = lex(plain);
+    let mut spans: Vec<(usize, usize, bool)> = lx.toks.iter().map(|t| (t.span.start, t.span.end, matches!(t.kind, Kind::Text | Kind::CData))).collect();
+    let covered = spans.last().map_or(0, |s| s.1);
+    if covered < plain.len() {
+        // an unfinished construct at the end (unbalanced sequences): one opaque markup token
+        spans.push((covered, plain.len(), false));
+    }
+    let mut pos = 0usize;
+    let mut prev_textlike = false;
+    for (a, b, textlike) in spans {
+        let tok = &plain[a..b];
+        if ind[pos.min(ind.len())..].starts_with(tok) && !(tok.is_empty()) {
+            pos += tok.len();
+        } else {
+            // an insertion: must be \n + indent chars, before markup, not after text / CDATA
+            let rest = &ind[pos.min(ind.len())..];
+            if rest.first() != Some(&b'\n') {
+                return Err(format!("at byte {} the indented output continues with {:?}, the plain output with {:?}", pos, lossy(&rest[..rest.len().min(30)]), lossy(&tok[..tok.len().min(30)])));
+            }
+            let mut k = 1;
+            while k < rest.len() && rest[k] == ch {
+                k += 1;
+            }
+            if !rest[k..].starts_with(tok) {
+                return Err(format!("at byte {} the indented output has {:?} where the plain output has {:?}: not a line break + indent in front of the same token", pos, lossy(&rest[..rest.len().min(40)]), lossy(&tok[..tok.len().min(30)])));
+            }
+            if textlike {
+                return Err(format!("a line break was inserted in front of text / CDATA {:?}", lossy(&tok[..tok.len().min(30)])));
+            }
+            if prev_textlike {
+                return Err(format!("a line break was inserted in front of {:?} directly after text / CDATA", lossy(&tok[..tok.len().min(30)])));
+            }
+            pos += k + tok.len();
+        }
+        prev_textlike = textlike;
+    }
+    if pos != ind.len() {
+        return Err(format!("the indented output has {:?} after the last token of the plain output", lossy(&ind[pos..ind.len().min(pos + 30)])));
+    }
+    Ok(())
+}
+
 fn drop_blank_texts(v: Vec<Canon>) -> Vec<Canon> {
     v.into_iter().filter(|c| !matches!(c, Canon::Text(t) if t.chars().all(|c| c.is_ascii_whitespace()))).collect()
 }
@@ -203,6 +250,7 @@ fn sweep_serde<T: Fam>(ctx: &Ctx, ln: u32, level: usize) {
                     acc.traces += 1;
                     acc.transitions += 2;
                     let verdict = (|| -> Result<(), String> {
+                        positional_rule(plain.as_bytes(), ind.as_bytes(), b' ').map_err(|m| format!("indented output {:?} vs plain {:?}: {}", ind, plain, m))?;
                         let a = raw_events(plain.as_bytes())?;
                         let b = raw_events(ind.as_bytes())?;
                         if a != b {
@@ -418,6 +466,7 @@ fn check_sequence(specs: &[Spec], ch: u8, size: usize) -> Result<bool, String> {
     }
     let ind = ind.into_inner();
     let plain = plain.into_inner();
+    positional_rule(&plain, &ind, ch).map_err(|m| format!("indented {:?} vs plain {:?}: {}", lossy(&ind), lossy(&plain), m))?;
     // read-back: same events once blank-only texts between markup are dropped; payloads byte-identical
     let a = raw_events(&plain)?;
     let b = raw_events(&ind)?;
@@ -521,10 +570,53 @@ pub fn run(ctx: &Ctx) {
     crate::for_each_type!(go);
     sweep_serde_extra(ctx, ln, t.pick(4, 5));
     sweep_shapes(ctx, ln + 1, t.pick(4, 5));
+    // (5) the element builder (ElementWriter) writes through the same indentation state: every sequence of
+    // up to 3 builder calls x 7 finishing calls, indented vs plain, under the positional rule
+    use crate::props::c09::{element_writer, EFin, EOp};
+    let eops = [EOp::Attr(0), EOp::Attr(1), EOp::Attr(2), EOp::Attrs, EOp::NewLine];
+    let fins = [EFin::Empty, EFin::Text, EFin::CData, EFin::PI, EFin::Inner(0), EFin::Inner(1), EFin::Inner(2)];
+    let indents = [(b' ', 2usize), (b'\t', 1usize), (b' ', 0usize), (b' ', 9usize)];
+    let ke = eops.len() as u64;
+    ctx.layer("writer.element_builder", ln + 2, count_upto(ke, 3) * 7 * 4, json!({"builder_calls": "<=3 of with_attribute x3, with_attributes, new_line", "finishers": 7, "indents": [[" ", 2], ["\\t", 1], [" ", 0], [" ", 9]]}), |i, acc| {
+        let mut d = Vec::new();
+        decode_upto(ke, 3, i / 28, &mut d);
+        let mut seen = std::collections::HashSet::new();
+        if !d.iter().all(|&x| x == 4 || seen.insert(x)) {
+            return;
+        }
+        // `new_line` puts attributes on their own lines *inside* the tag: that is not indentation between markup
+        if d.contains(&4) {
+            return;
+        }
+        let pre: Vec<EOp> = d.iter().map(|&x| eops[x as usize]).collect();
+        let fin = fins[((i / 4) % 7) as usize];
+        let (ch, size) = indents[(i % 4) as usize];
+        acc.evaluations += 1;
+        acc.traces += 1;
+        acc.transitions += 2;
+        let (Ok(plain), Ok(ind)) = (element_writer(&pre, fin, None), element_writer(&pre, fin, Some((ch, size)))) else { return };
+        match positional_rule(&plain, &ind, ch) {
+            Ok(()) => acc.nt_count += 1,
+            Err(what) => acc.violation((ln + 2, i), format!("ElementWriter {:?} then {:?}, indent {:?} x{}: indented {:?} vs plain {:?}: {}", pre, fin, ch as char, size, lossy(&ind), lossy(&plain), what), json!({"kind": "element_builder", "pre": d, "fin": (i / 4) % 7, "indent": i % 4})),
+        }
+    });
 }
 
 pub fn replay(case: &Value) -> Result<(), String> {
     let alpha = alphabet();
+    if case["kind"].as_str() == Some("element_builder") {
+        use crate::props::c09::{element_writer, EFin, EOp};
+        let eops = [EOp::Attr(0), EOp::Attr(1), EOp::Attr(2), EOp::Attrs, EOp::NewLine];
+        let fins = [EFin::Empty, EFin::Text, EFin::CData, EFin::PI, EFin::Inner(0), EFin::Inner(1), EFin::Inner(2)];
+        let indents = [(b' ', 2usize), (b'\t', 1usize), (b' ', 0usize), (b' ', 9usize)];
+        let pre: Vec<EOp> = case["pre"].as_array().unwrap().iter().map(|v| eops[v.as_u64().unwrap() as usize]).collect();
+        let fin = fins[case["fin"].as_u64().unwrap() as usize];
+        let (ch, size) = indents[case["indent"].as_u64().unwrap() as usize];
+        let plain = element_writer(&pre, fin, None)?;
+        let ind = element_writer(&pre, fin, Some((ch, size)))?;
+        println!("plain:    {:?}\nindented: {:?}", lossy(&plain), lossy(&ind));
+        return positional_rule(&plain, &ind, ch);
+    }
     match case["kind"].as_str().unwrap_or("") {
         "writer" => {
             let ch = case["char"].as_u64().unwrap() as u8;
